@@ -13,7 +13,9 @@ from .. import oracles as O
 ID = "C17"
 LEVEL = "exploration"
 RULE = ("main: Hypothesis-generated one-sided envelope histories with ageing in {0, 0.5, 2, 10} virtual seconds, a "
-        "generated prioritize() (by file name: -1, 0, 1, 2) and explicit clock advances.  Oracle A (differential, every "
+        "generated prioritize() (by leaf name, or by top-level folder so that a folder rename re-ranks its children: -1, 0, 1, 2) "
+        "and explicit clock advances.  Oracle C: after an event-intake step every entry whose path changed in that step has "
+        "the rank prioritize() gives to its NEW path.  Oracle A (differential, every "
         "sync step): SyncState.change is wrapped, the virtual clock frozen for the call, and the returned entry compared "
         "with a reference choice computed on the same state and the same 'now': eligible = pending entries with "
         "priority < 0 or a change flag <= now - ageing; result is None iff none is eligible, otherwise it is in "
@@ -33,9 +35,13 @@ AGINGS = (0, 0.5, 2, 10)
 PRIOS = (-1, 0, 0, 1, 2)
 
 
-def make_cs(prio):
+def make_cs(prio, by_dir=False):
     class PrioCS(CloudSync):
         def prioritize(self, side, path):
+            if by_dir:
+                # the application ranks whole top-level folders: everything under /<root>/<x>/ gets the rank of x
+                comps = path.split("/")[2:]
+                return prio.get(comps[0], 0) if comps else 0
             return prio.get(path.rsplit("/", 1)[-1], 0)
     return PrioCS
 
@@ -52,6 +58,8 @@ def gen(d, tier):
     cfg["origin"] = d.int(0, 1)
     cfg["aging"] = d.choice(AGINGS)
     cfg["prio"] = {n: d.choice(PRIOS) for n in ("a", "b", "c", "d", "e")}
+    if d.bool():
+        cfg["prio_by_dir"] = True
 
     def extra(d, world, acts):
         acts.append(["clock", d.choice((0.1, 0.4, 1.0, 3.0, 11.0))])
@@ -88,7 +96,7 @@ def in_domain(trace):
 
 class Run(HistoryRun):
     def __init__(self, trace):
-        super().__init__(trace, case_kw={"cs_class": make_cs(trace["cfg"].get("prio", {}))})
+        super().__init__(trace, case_kw={"cs_class": make_cs(trace["cfg"].get("prio", {}), trace["cfg"].get("prio_by_dir", False))})
         self.aging = trace["cfg"].get("aging", 0)
         self.too_young_steps = 0
         self.picks = 0
@@ -170,6 +178,25 @@ class Run(HistoryRun):
 
     def before_step(self, who):
         self.cur_who = who
+        if who in ("EL", "ER"):
+            sd = 0 if who == "EL" else 1
+            self._paths_before = {e: e[sd].path for e in self.case.cs.state._oids[sd].values()}
+
+    def _priority_follows_path(self, who):
+        """Oracle C: an event-intake step that changes the path the engine holds for an object (rename event, or the
+        re-pathing of the children of a renamed folder) leaves the entry with the rank the application's prioritize()
+        gives to the NEW path (no punt and no 'finished' reset happens in an intake step)."""
+        sd = 0 if who == "EL" else 1
+        cs = self.case.cs
+        for e in list(cs.state._oids[sd].values()):
+            p = e[sd].path
+            if p and e in self._paths_before and self._paths_before[e] != p and not e.is_discarded:
+                want = cs.prioritize(sd, p)
+                if e.priority != want:
+                    old = self._paths_before[e]
+                    return ("priority_follows_path", "after %s the entry for %s (was %s) has priority %r, prioritize() gives %r for its new path%s" % (
+                        who, p, old, e.priority, want, " (and %r for the old one)" % cs.prioritize(sd, old) if old else ""))
+        return None
 
     def special(self, act):
         if act[0] != "clock":
@@ -182,6 +209,10 @@ class Run(HistoryRun):
             raise Stop(violation("exception_escaped", e))
         if self.err:
             raise Stop(violation(self.err[0], "step %s: %s" % (who, self.err[1])))
+        if who in ("EL", "ER"):
+            c = self._priority_follows_path(who)
+            if c:
+                raise Stop(violation(c[0], c[1]))
 
     def at_quiet(self, rounds, final):
         if self.exp is None:
@@ -195,6 +226,8 @@ class Run(HistoryRun):
         labs = ["aging:%s" % cfg.get("aging"), "flavour:%s/%s" % (cfg["L"], cfg["R"])]
         if any(v < 0 for v in cfg.get("prio", {}).values()):
             labs.append("has_negative_priority")
+        if cfg.get("prio_by_dir"):
+            labs.append("priority_by_top_folder")
         return ok(nontrivial=self.aging > 0 and self.too_young_steps > 0, labels=labs,
                   counters={"picks_compared": self.picks, "steps_with_too_young_entries": self.too_young_steps})
 
